@@ -38,7 +38,7 @@ QStar == [k \in 1..Cardinality(StarBases) |->
 ---------------------------------------------------------------------------
 (* standard enums: discriminants given as bit sets so that any width works  *)
 AsSeq(S) == SetToSeq(S)
-V(nm, d) == [name |-> nm, d |-> d, cfg |-> "none", form |-> "lit"]
+V(nm, d) == [name |-> nm, d |-> d, cfg |-> "none", form |-> "lit", doc |-> FALSE]
 EnumNonExh(nm, n) ==
   [name |-> nm, n |-> n, exh |-> "false",
    variants |-> IF n = 1 THEN << V("Z", <<>>) >>
@@ -275,10 +275,24 @@ QB14 == <<
   (* no writable field at all *)
   B14(8, ZeroDef, << N(Scalar("uarb", 4, 0, "r"), "ro") >>),
   B14(8, <<>>, << N(Scalar("uarb", 4, 0, "r"), "ro") >>),
+  (* an array whose ELEMENT's range list overlaps itself although the elements are far apart *)
+  B14(32, ZeroDef, << N(ListFld("unat", << <<0, 3>>, <<2, 5>> >>, <<4>>, <<8>>, "rw"), "a") >>),
+  B14(32, ZeroDef, << N(ListFld("uarb", << <<0, 1>>, <<3, 3>> >>, <<4>>, <<8>>, "rw"), "a") >>),
   (* full-width single field *)
+  B14(128, ZeroDef, << N(Scalar("unat", 128, 0, "rw"), "all") >>),
+  B14(64, ZeroDef, << N(Scalar("unat", 64, 0, "rw"), "all") >>),
   B14(128, <<>>, << N(Scalar("unat", 128, 0, "rw"), "all") >>),
   B14(64, <<>>, << N(Scalar("inat", 64, 0, "w"), "all") >>)
   >>
+
+---------------------------------------------------------------------------
+(* T-all (thorough tiers): EVERY (lo, hi) of 11 bases as a single-range rw field -- the five native bases contain every       *)
+(* (storage, lo, width) combination the code generator can see, the six arbitrary-int ones every relation to N-1.            *)
+TallBases == <<8, 16, 32, 64, 128, 7, 9, 24, 33, 65, 127>>
+TallKind(w, lo) == IF w \in Native THEN (IF lo % 2 = 0 THEN "unat" ELSE "inat") ELSE IF w = 1 /\ lo % 2 = 0 THEN "bool" ELSE "uarb"
+(* one declaration per base holding ALL its single-range fields; the orchestrator splits it into compile units of <= 500 fields *)
+TallFields(W) == SetToSeq({Scalar(TallKind(p[1], p[2]), p[1], p[2], "rw") : p \in {q \in (1..W) \X (0..(W - 1)) : q[1] + q[2] <= W}})
+QTall == [k \in 1..Len(TallBases) |-> MkDecl(TallBases[k], <<>>, TallFields(TallBases[k]), <<>>, <<>>, FALSE)]
 
 QModel == AllModelDecls
 
@@ -293,6 +307,7 @@ CorpusByName(nm) ==
     [] nm = "dbg"   -> Renumber(QDbg)
     [] nm = "model" -> Renumber(QModel)
     [] nm = "acc"   -> Renumber(QAcc)
+    [] nm = "tall"  -> Renumber(QTall)
     [] nm = "b14"   -> Renumber(QB14)
 
 Out == CorpusByName(IOEnv.CORPUS)
